@@ -1,7 +1,8 @@
 """C13 -- A generated converter equals the field-wise construction the linking rules fix.
 
 Generated (pure data): a set of logical models (pairs related by renaming / dropping / adding / nesting fields; dataclass,
-attrs, NamedTuple, TypedDict, pydantic, plain __init__ class as destination; generic nested pairs), a conversion recipe built from the public providers (link / link_constant / link_function / coercer /
+attrs, NamedTuple, TypedDict, pydantic, plain __init__ class as destination; generic nested pairs; attrs private attributes /
+``alias=`` and pydantic ``Field(alias=)``: constructor parameter spelled unlike the field id), a conversion recipe built from the public providers (link / link_constant / link_function / coercer /
 allow_unlinked_optional / forbid_unlinked_optional) with unambiguous predicates, an entry point (get_converter,
 impl_converter with a generated stub, convert; module level or ConversionRetort(...).extend(...)), extra parameters
 (positional-only / positional / keyword-only, with defaults), a call plan and the values.
@@ -101,6 +102,10 @@ STUB_NAMES = ["convert", "conv", "to_dto", "make", "f", "data", "ctx", "src", "c
 FIRST_NAMES = ["src", "s", "book", "data", "ctx", "coercer", "obj", "model"]
 FN_NAMES = ["fn", "make_value", "data", "ctx", "coercer", "list", "id", "constant_0", "accessor_0", "func_0",
             "convert"]
+
+# explicit constructor aliases (attrs ``alias=``, pydantic ``Field(alias=)``); field / parameter names of the case are
+# added to the pool so that an alias may equal the id of another (itself renamed) field or the name of a parameter
+ALIAS_NAMES = ["remark", "alias", "kw", "x_", "arg0", "note", "item_id", "kwargs"]
 
 _uid = itertools.count()
 
@@ -274,6 +279,33 @@ def _sig_text(params) -> str:
     return ", ".join(out)
 
 
+def is_private(name: str) -> bool:
+    return name.startswith("_") and not name.startswith("__")
+
+
+def param_name(ms, f) -> str:
+    """Name of the constructor parameter that fills field ``f`` of model spec ``ms``.  It differs from the field id
+    (``f["n"]``, the attribute name) for the model kinds that rename parameters: attrs strips the leading underscore
+    of a private attribute unless ``alias=`` says otherwise; pydantic takes a field with an alias by the alias.
+    Harness plumbing only (how the real class wants to be called) -- the linking reference never looks at it."""
+    if ms["kind"] in ("attrs", "pydantic") and f.get("al"):
+        return f["al"]
+    if ms["kind"] == "attrs" and is_private(f["n"]):
+        return f["n"][1:]
+    return f["n"]
+
+
+def rename_kind(ms, f):
+    """None, or how the parameter of the field comes to differ from the field id."""
+    if ms["kind"] == "attrs" and f.get("al"):
+        return "attrs_private_alias" if is_private(f["n"]) else "attrs_alias"
+    if ms["kind"] == "attrs" and is_private(f["n"]):
+        return "attrs_private"
+    if ms["kind"] == "pydantic" and f.get("al"):
+        return "pydantic_" + f.get("alk", "alias") + ("_populate_by_name" if ms.get("pbn") else "")
+    return None
+
+
 def build_model(E: CEnv, idx: int):  # noqa: C901, PLR0912, PLR0915
     ms = E.models[idx]
     kind = ms["kind"]
@@ -310,13 +342,13 @@ def build_model(E: CEnv, idx: int):  # noqa: C901, PLR0912, PLR0915
         ns["attrs"] = attrs
         lines += ["@attrs.define", f"class {cname}({gen}):"]
         for i, f in enumerate(fields):
-            d, kw = f.get("d"), "kw_only=True" if f.get("kw") else ""
-            if d is None:
-                lines.append(f"    {f['n']}: T{i}" + (f" = attrs.field({kw})" if kw else ""))
-            elif d[0] == "v":
-                lines.append(f"    {f['n']}: T{i} = attrs.field(default=D{i}, {kw})")
-            else:
-                lines.append(f"    {f['n']}: T{i} = attrs.field(factory=F{i}, {kw})")
+            d = f.get("d")
+            opts = [] if d is None else [f"default=D{i}"] if d[0] == "v" else [f"factory=F{i}"]
+            if f.get("kw"):
+                opts.append("kw_only=True")
+            if f.get("al"):
+                opts.append(f"alias={f['al']!r}")
+            lines.append(f"    {f['n']}: T{i}" + (f" = attrs.field({', '.join(opts)})" if opts else ""))
     elif kind == "namedtuple":
         lines.append(f"class {cname}(NamedTuple{', ' + gen if gen else ''}):")
         for i, f in enumerate(fields):
@@ -335,15 +367,20 @@ def build_model(E: CEnv, idx: int):  # noqa: C901, PLR0912, PLR0915
         import pydantic  # noqa: PLC0415
         ns["pydantic"] = pydantic
         lines.append(f"class {cname}(pydantic.BaseModel):")
-        lines.append("    model_config = pydantic.ConfigDict(arbitrary_types_allowed=True)")
+        lines.append("    model_config = pydantic.ConfigDict(arbitrary_types_allowed=True"
+                     + (", populate_by_name=True" if ms.get("pbn") else "") + ")")
         for i, f in enumerate(fields):
             d = f.get("d")
-            if d is None:
-                lines.append(f"    {f['n']}: T{i}")
-            elif d[0] == "v":
-                lines.append(f"    {f['n']}: T{i} = D{i}")
+            opts = [] if d is None else [f"default=D{i}"] if d[0] == "v" else [f"default_factory=F{i}"]
+            if f.get("al"):
+                how = f.get("alk", "alias")
+                opts.append(f"alias={f['al']!r}" if how == "alias" else f"validation_alias={f['al']!r}"
+                            if how == "validation_alias" else
+                            f"validation_alias=pydantic.AliasChoices({f['al']!r}, {'zz_' + f['al']!r})")
+            if f.get("al") or (d is not None and d[0] != "v"):
+                lines.append(f"    {f['n']}: T{i} = pydantic.Field({', '.join(opts)})")
             else:
-                lines.append(f"    {f['n']}: T{i} = pydantic.Field(default_factory=F{i})")
+                lines.append(f"    {f['n']}: T{i}" + ("" if d is None else f" = D{i}"))
     elif kind == "plain":
         params = []
         for i, f in enumerate(fields):
@@ -363,6 +400,9 @@ def build_model(E: CEnv, idx: int):  # noqa: C901, PLR0912, PLR0915
     src = "\n".join(lines) + "\n"
     exec(compile(src, f"<c13 model {cname}>", "exec", dont_inherit=True), ns)  # noqa: S102
     cls = ns[cname]
+    if kind == "attrs":   # harness self-check: the real class takes the parameters the spec says (crash = harness bug)
+        real = [(a.name, a.alias) for a in ns["attrs"].fields(cls)]
+        assert real == [(f["n"], param_name(ms, f)) for f in fields], (real, fields)
     E.classes[f"M{idx}"] = cls
     E.by_class[cls] = idx
     E.kinds[f"M{idx}"] = kind
@@ -383,6 +423,8 @@ def construct(E: CEnv, idx: int, kwargs: dict):
             else:
                 kw[f["n"]] = kwargs[f["n"]]
         return cls(*args, **kw)
+    if ms["kind"] in ("attrs", "pydantic"):   # kinds whose constructor parameters may be spelled unlike the fields
+        return cls(**{param_name(ms, f): kwargs[f["n"]] for f in ms["fields"] if f["n"] in kwargs})
     return cls(**kwargs)
 
 
@@ -898,6 +940,32 @@ def split_recipe(provs, api):
     return provs[:i], provs[i:j], provs[j:]
 
 
+def rename_labels(models, ref: Ref) -> list[str]:
+    """Evidence labels for models whose constructor parameters are spelled unlike the field ids: which kind, on which
+    side, and -- for destination fields the reference links -- how the argument can be passed (by position, or only by
+    keyword: keyword-only attribute / after a destination field the reference leaves to its default / pydantic)."""
+    out = set()
+    for idx, ms in enumerate(models):
+        side = "dst" if any(k[0] == idx for k in ref.modes) else "src"
+        ids = {f["n"] for f in ms["fields"]}
+        skipped = False
+        for f in ms["fields"]:
+            rk = rename_kind(ms, f)
+            mode = ref.modes.get((idx, f["n"]))
+            if rk is not None:
+                out.add(f"renamed_param:{side}:{rk}")
+                if f.get("al") in ids:
+                    out.add(f"renamed_param:{side}:alias_is_id_of_another_field")
+                if mode is not None and mode != "skip:default":
+                    how = ("pydantic_defaulted" if f.get("d") is not None else "pydantic_required") \
+                        if ms["kind"] == "pydantic" else "attrs_kw_only" if f.get("kw") \
+                        else "attrs_after_skipped_optional" if skipped else "attrs_positional"
+                    out.add("renamed_dst_arg:" + how)
+            if mode == "skip:default":
+                skipped = True
+    return sorted(out)
+
+
 def risk_tags(case) -> list[str]:
     """Features of the case that belong to a recorded open finding (used in signatures; see notes/C13.md)."""
     tags = []
@@ -933,7 +1001,7 @@ def check_case(ctx: runner.Ctx, case):  # noqa: C901, PLR0912, PLR0915
     labels = [f"verdict:{verdict}", f"api:{api['kind']}:{api.get('via', 'module')}", f"src_kind:{models[smi]['kind']}",
               f"dst_kind:{models[dmi]['kind']}", f"models:{min(len(models), 8)}", f"extra_params:{len(params)}",
               f"recipe_len:{min(len(case['recipe']), 8)}", *[f"uses_kind:{k}" for k in kinds],
-              *sorted(ref.labels), *[f"risk:{r}" for r in risks]]
+              *sorted(ref.labels), *rename_labels(models, ref), *[f"risk:{r}" for r in risks]]
     if api["kind"] == "impl":
         labels += [f"stub_param_kind:{p['kind']}" for p in params]
         labels += ["stub:first_" + api["stub"]["first"]["kind"], "stub:body_" + api["stub"]["body"]]
@@ -944,7 +1012,9 @@ def check_case(ctx: runner.Ctx, case):  # noqa: C901, PLR0912, PLR0915
         labels.append("recipe:split_over_retort_extend_call")
     ctx.case([case], nontrivial,
              sample={"models": [{"name": m["name"], "kind": m["kind"],
-                                 "fields": {f["n"]: ttext(f["t"]) + ("=dflt" if f.get("d") else "") for f in m["fields"]}}
+                                 "fields": {f["n"]: ttext(f["t"]) + ("=dflt" if f.get("d") else "")
+                                            + (f" param={param_name(m, f)}" if rename_kind(m, f) else "")
+                                            for f in m["fields"]}}
                                 for m in models],
                      "src": smi, "dst": dmi, "recipe": case["recipe"], "api": api, "verdict": verdict, "reason": reason},
              labels=labels)
@@ -1111,6 +1181,10 @@ def check_case(ctx: runner.Ctx, case):  # noqa: C901, PLR0912, PLR0915
             detail = "single_tuple"
         elif isinstance(where[3], tuple) and where[3][0] == "str" and "\n" in where[3][1] and where[2][0] == "str":
             detail = "newline_str"
+        elif isinstance(where[0], int):   # triage aid: the differing field is filled through a renamed parameter
+            rk = [rename_kind(models[where[0]], f) for f in models[where[0]]["fields"] if f["n"] == where[1]]
+            if rk and rk[0]:
+                detail = "renamed_param:" + rk[0]
         viol("wrong_result", (mode, detail, risk),
              f"field M{where[0]}.{where[1]} [{mode}]: got {result!r} expected {expected!r}")
     after = canon([src_obj, list(args[1:]), sorted(kwargs.items(), key=lambda kv: kv[0])], E)
@@ -1217,7 +1291,8 @@ def st_value(t, models, absent_ok=False):  # noqa: C901, PLR0911
             for f in ms["fields"]:
                 if absent_ok and ms["kind"] == "typeddict" and f.get("d") is not None and draw(st.integers(0, 3)) == 0:
                     continue
-                out[f["n"]] = draw(st_value(subst(f["t"], arg), models, absent_ok))
+                # keyed by constructor parameter: codec.build calls cls(**fields) (pydantic by alias, attrs `_x` by `x`)
+                out[param_name(ms, f)] = draw(st_value(subst(f["t"], arg), models, absent_ok))
             return {"$": "obj", "c": f"M{t[1]}", "f": out}
         return model_value()
     raise ValueError(t)
@@ -1260,6 +1335,11 @@ class Gen:
         if free:
             return self.pick(free)
         return f"{prefix}{len(used)}"
+
+    @staticmethod
+    def taken(names) -> set:
+        """The names plus the constructor parameters attrs derives from private ones (`_x` is filled through `x`)."""
+        return set(names) | {n[1:] for n in names if is_private(n)}
 
     def dst_pred(self, dmi, g):
         w = self.draw(st.integers(0, 9))
@@ -1404,9 +1484,15 @@ class Gen:
         dname = self.fresh(MODEL_NAMES, used_model_names | {sname}, "D")
         n = self.draw(st.integers(1, 4 if top else 3))
         dnames = self.draw(st.lists(st.sampled_from(FIELD_NAMES), min_size=n, max_size=n, unique=True))
+        # private attributes: attrs fills `_x` through the constructor parameter `x` (field id and parameter name differ)
+        src_priv_ok = skind in ("dataclass", "attrs", "typeddict")   # kinds that can declare a field `_x`
+        if dkind == "attrs" or (skind == "attrs" and dkind in ("dataclass", "typeddict", "plain")):
+            dnames = ["_" + g if self.chance(30 if dkind == "attrs" else 15) else g for g in dnames]
         sfields: list[dict] = []
         dfields: list[dict] = []
         snames = set()
+        unlinked_seen = False
+        unlinked: set = set()
 
         def add_src(name, t):
             snames.add(name)
@@ -1418,6 +1504,9 @@ class Gen:
                 modes += ["from_param"] * 3 + (["param_same"] * 4 if top else ["nested_shadow"] * 4 + ["from_param"] * 2)
             if self.neg and not self.neg_done:
                 modes += ["neg"] * 6
+            no_twin = is_private(g) and not src_priv_ok   # the source kind cannot hold a same-named field
+            if no_twin:
+                modes = [m for m in modes if m not in ("same", "nested_shadow")]
             if g in snames:
                 modes = ["same_existing"]
             mode = self.pick(modes)
@@ -1443,7 +1532,9 @@ class Gen:
                 self.param(g, s if self.chance(70) else self.scalar())
                 main = []
             elif mode == "renamed":
-                f = self.fresh(FIELD_NAMES, snames | set(dnames), "f")
+                f = self.fresh(FIELD_NAMES, self.taken(snames | set(dnames)), "f")
+                if skind == "attrs" and self.chance(30):
+                    f = "_" + f
                 sp, dp = self.src_pred(smi, f), self.dst_pred(dmi, g)
                 if self.chance(25):
                     u, t = self.scalar(), self.scalar()
@@ -1467,7 +1558,7 @@ class Gen:
                 if p["t"] != s:
                     d = p["t"]
                 dfields.append({"n": g, "t": d})
-                if self.chance(50):   # a same-named source field must lose against the parameter
+                if self.chance(50) and not no_twin:   # a same-named source field must lose against the parameter
                     add_src(g, self.scalar() if self.chance(50) else p["t"])
                 main = []
             elif mode == "from_param":
@@ -1529,6 +1620,8 @@ class Gen:
                 main = [{"k": "func", "dst": self.dst_pred(dmi, g), "fn": spec}]
                 dfields.append({"n": g, "t": [to] if to != "raw" else ["any"]})
             elif mode == "unlinked":
+                unlinked_seen = True
+                unlinked.add(g)
                 t = self.scalar() if self.chance(70) else ["list", self.scalar()]
                 dflt = ["v", self.pick(VALUES[t[0]])] if t[0] in VALUES else ["f", "list"]
                 dfields.append({"n": g, "t": t, "d": dflt})
@@ -1550,7 +1643,7 @@ class Gen:
                 self.neg_done = True
                 which = self.pick(["missing_required", "forbidden_optional", "forbid_first"]
                                   + ([] if top or not self.allow_params else ["nested_param_only"] * 2)
-                                  + ["scalar_mismatch"])
+                                  + ([] if no_twin else ["scalar_mismatch"]))
                 main = []
                 if which == "missing_required":
                     dfields.append({"n": g, "t": self.scalar()})
@@ -1577,7 +1670,8 @@ class Gen:
             if pre or main or post:
                 self.groups.append(pre + main + post)
             # destination defaults on *linked* fields (the value must still be passed)
-            if dflt is None and mode not in ("neg",) and self.chance(25):
+            # (more often after an unlinked optional field: the arguments behind a skipped one must go by keyword)
+            if dflt is None and mode not in ("neg",) and self.chance((85 if dkind == "attrs" else 60) if unlinked_seen else 25):
                 t = dfields[-1]["t"]
                 if t[0] in VALUES:
                     dfields[-1]["d"] = ["v", self.pick(VALUES[t[0]])]
@@ -1588,10 +1682,17 @@ class Gen:
 
         # extra source fields (ignored by the converter)
         for _ in range(self.draw(st.integers(0, 2))):
-            f = self.fresh(FIELD_NAMES, snames | set(dnames), "u")
+            f = self.fresh(FIELD_NAMES, self.taken(snames | set(dnames)), "u")
+            if skind == "attrs" and self.chance(25):
+                f = "_" + f
             add_src(f, self.scalar() if self.chance(70) else ["list", self.scalar()])
+        # decoy: a source field spelled like the constructor *parameter* of a private destination field (`x` for `_x`);
+        # fields are linked by id, so it is just one more ignored source field
+        for g in dnames:
+            if is_private(g) and skind != "attrs" and g[1:] not in snames | set(dnames) and self.chance(25):
+                add_src(g[1:], self.scalar())
         if not sfields:
-            add_src(self.fresh(FIELD_NAMES, set(dnames), "u"), ["int"])
+            add_src(self.fresh(FIELD_NAMES, self.taken(dnames), "u"), ["int"])
         sfields = self.draw(st.permutations(sfields))
         # source NotRequired keys
         if skind == "typeddict":
@@ -1602,19 +1703,53 @@ class Gen:
             for f in dfields:
                 if (dmi, f["n"]) in self.coerced_fields():
                     f.pop("d", None)
-        dfields = self.order_dst(dkind, dfields)
-        self.models[smi] = {"name": sname, "kind": skind, "fields": sfields}
-        self.models[dmi] = {"name": dname, "kind": dkind, "fields": dfields}
+        dfields = self.order_dst(dkind, dfields, unlinked)
+        others = sorted(snames | set(dnames) | {p["name"] for p in self.params})
+        self.models[smi] = {"name": sname, "kind": skind, "fields": sfields, **self.alias_params(skind, sfields, others)}
+        self.models[dmi] = {"name": dname, "kind": dkind, "fields": dfields, **self.alias_params(dkind, dfields, others, unlinked)}
         if generic:
             self.models[smi]["generic"] = self.models[dmi]["generic"] = True
         self.open = self.open - {smi, dmi}
         self.pairs.append((smi, dmi))
         return smi, dmi
 
-    def order_dst(self, kind, fields):
+    def alias_params(self, kind, fields, others, unlinked=()) -> dict:
+        """Explicit aliases: attrs ``attrs.field(alias=)``, pydantic ``Field(alias= / validation_alias=)``.  The field
+        id stays the attribute name, only the constructor parameter is renamed; parameter names stay unique per model.
+        -> model-level options (pydantic ``populate_by_name``)."""
+        if kind not in ("attrs", "pydantic") or not fields:
+            return {}
+        ms = {"kind": kind}
+        names = [param_name(ms, f) for f in fields]
+        behind_skipped = False
+        for i, f in enumerate(fields):
+            behind_skipped = behind_skipped or f["n"] in unlinked
+            if not self.chance(50 if behind_skipped and kind == "attrs" else 25):
+                continue
+            pool = [a for a in ALIAS_NAMES + others + (["_y", "_alias"] if kind == "attrs" else [])
+                    if a not in names and (kind == "attrs" or not a.startswith("_"))]
+            if not pool:
+                continue
+            f["al"] = names[i] = self.pick(pool)
+            if kind == "pydantic":
+                f["alk"] = self.pick(["alias", "alias", "alias", "validation_alias", "choices"])
+        # two fields filled through each other's name: a call spelled with field ids would swap the values silently
+        plain = [f for f in fields if param_name(ms, f) == f["n"] and not is_private(f["n"])]
+        if len(plain) >= 2 and self.chance(12):   # noqa: PLR2004
+            a, b = self.draw(st.permutations(plain))[:2]
+            a["al"], b["al"] = b["n"], a["n"]
+        ids = {f["n"] for f in fields}
+        if kind == "pydantic" and any(f.get("al") for f in fields) and not any(f.get("al") in ids for f in fields) \
+                and self.chance(12):
+            return {"pbn": True}   # populate_by_name: both spellings are accepted (unambiguous: no alias is a field id)
+        return {}
+
+    def order_dst(self, kind, fields, unlinked=()):
         """Make the field order / parameter kinds legal for the model kind."""
         if kind in ("typeddict", "pydantic"):
             return fields
+        if unlinked and self.chance(60):   # skipped optional fields first: every argument behind them goes by keyword
+            fields = [f for f in fields if f["n"] in unlinked] + [f for f in fields if f["n"] not in unlinked]
         if kind in ("dataclass", "attrs"):
             for f in fields:
                 if self.chance(20):
@@ -1773,6 +1908,27 @@ def fixed_cases():  # noqa: PLR0915
         yield {"models": [S, D4], "src": 0, "dst": 1, "value": val, "args": [], "call": [],
                "recipe": [{"k": "const", "dst": ["PF", 1, "tags"], "value": c}],
                "api": {"kind": "get", "via": "module", "split": [1, 1], "name": None}}
+
+    # constructor parameters spelled unlike the field ids (linking goes by field id, the call by parameter name)
+    get = {"kind": "get", "via": "module", "split": [0, 0], "name": None}
+    Sn = _m("Book", "dataclass", [("title", ["str"], None), ("price", ["int"], None), ("note", ["str"], None)])
+    Dp = _m("BookModel", "pydantic", [("title", ["str"], None), ("price", ["int"], None), ("note", ["str"], ["v", "<no note>"])])
+    Dp["fields"][2]["al"] = "remark"                       # note: str = Field(default="<no note>", alias="remark")
+    yield {"models": [Sn, Dp], "src": 0, "dst": 1, "args": [], "call": [], "recipe": [], "api": get,
+           "value": {"$": "obj", "c": "M0", "f": {"title": "Dune", "price": 10, "note": "signed copy"}}}
+    Sa = _m("PrivSrc", "attrs", [("title", ["str"], None), ("_price", ["int"], None)])
+    pval = {"$": "obj", "c": "M0", "f": {"title": "Dune", "price": 10}}         # attrs: `_price` is passed as `price`
+    Da = _m("PrivDst", "attrs", [("title", ["str"], None), ("_price", ["int"], None)])
+    Da["fields"][1]["kw"] = True                           # keyword-only private attribute
+    yield {"models": [Sa, Da], "src": 0, "dst": 1, "args": [], "call": [], "recipe": [], "api": get, "value": pval}
+    Db = _m("PrivDst2", "attrs", [("rating", ["int"], ["v", 0]), ("_price", ["int"], ["v", 0])])
+    yield {"models": [Sa, Db], "src": 0, "dst": 1, "args": [], "call": [], "api": {**get, "split": [1, 1]}, "value": pval,
+           "recipe": [{"k": "allow", "preds": [["S", "rating"]]}]}     # private attribute behind a skipped optional
+    Dc = _m("Swapped", "attrs", [("title", ["str"], None), ("price", ["any"], None)])
+    Dc["fields"][0].update(al="price", kw=True)            # two keyword-only attributes filled through each other's name
+    Dc["fields"][1].update(al="title", kw=True)
+    yield {"models": [Sn, Dc], "src": 0, "dst": 1, "args": [], "call": [], "recipe": [], "api": get,
+           "value": {"$": "obj", "c": "M0", "f": {"title": "Dune", "price": 10, "note": "signed copy"}}}
 
 
 # =================================================================================== exploration
